@@ -29,6 +29,19 @@ acached_per_instance are part of the model, with an arbitrary hash function).  W
 observed call itself (nothing to vary) the three conventions are skipped: how often a body runs for IDENTICAL calls is
 C12's / C13's subject.
 
+HISTORY of the world (`hist`): before the observed convention, in the same world, the attribute is used (in this or
+another thread), the helpers are applied to it, the instances are replaced by copy.copy / copy.deepcopy of themselves,
+`.asyncio()` calls (of a returning helper, of a failing helper, of the attribute itself) are awaited directly in the
+coroutine in which the convention then runs, earlier look-ups are garbage collected, debug options are switched on, a
+scoped value is overridden, the class attribute is mock-patched and restored.  The model has the two pieces of state
+that could matter (asyncio-mode flag, instance __dict__ entries shadowing the attribute) and proves that no history
+changes them (C09_history_restores, C09_history_irrelevant); the observations must be those of a fresh world.
+OVERRIDE (`ovr`): Sub defines its own attribute of the same name, decorated the same way, whose bodies (5, 6) delegate
+to the inherited one through super(): every entry of an own body must be preceded by the overriding body's entry with
+the same bound parameters (direct expectation in Lean: ovrLog; no theorem models super()).  Decoration options the
+model does not read: `shared` (ONE decorator-factory object decorates the own and the twin function), `kwopt` (the
+seldom used keywords asyncio_fn= / allow_sync_call= are supplied; the asyncio_fn must never run).
+
 An UNDECORATED generator function (kind raw x body gen / batch) is ordinary Python: every convention that reaches it
 hands back the unstarted generator object, no body is entered (C09_raw_generator).  These cells are outside the
 statement of C09 (it speaks about decorated callables) but inside what the helpers accept, so they are modelled and
@@ -65,12 +78,21 @@ THEOREMS = [
     "AsynqModel.Decorators.C09_second_call_receivers",
     "AsynqModel.Decorators.C09_other_keys_irrelevant",
     "AsynqModel.Decorators.C09_own_entries",
+    # history of the world, an overriding subclass (XCase; the observer the driver evaluates is specX)
+    "AsynqModel.Decorators.C09_history_restores",
+    "AsynqModel.Decorators.C09_history_clean",
+    "AsynqModel.Decorators.C09_history_irrelevant",
+    "AsynqModel.Decorators.C09_spec_holds_ext",
+    "AsynqModel.Decorators.C09_spec_exact_ext",
+    "AsynqModel.Decorators.C09_ext_conservative",
+    "AsynqModel.Decorators.C09_override_log",
     # machine-checked witnesses that the hypotheses of the theorems above are needed
     "AsynqModel.Decorators.C09_supported_needed",
     "AsynqModel.Decorators.C09_available_needed",
     "AsynqModel.Decorators.C09_second_call_key_needed",
     "AsynqModel.Decorators.C09_key_injective_needed",
     "AsynqModel.Decorators.C09_consistent_needed",
+    "AsynqModel.Decorators.C09_aio_exit_needed",
 ]
 # statements that hold BY CONSTRUCTION of the model (proved by rfl; in Theorems/C09.lean for the record, NOT claimed as
 # property theorems): what they are about rests on the differential run only
@@ -100,7 +122,17 @@ RULE = ("exhaustive product: 12 decorator kinds (undecorated, asynq, asynq pure,
         "from BaseException only or is falsy, 10 % use a user task class (asynq(cls=...)), 10 % a user key function "
         "(deduplicate(keygetter=...), alru_cache(key_fn=...)); every class-bound cell is run again with FALSY instances "
         "and classes and after look-ups of the same attribute through the other access paths (base then subclass, "
-        "subclass then base, instances in between) - dimensions the model does not read; non-trivial = a body was "
+        "subclass then base, instances in between) - dimensions the model does not read; HISTORY family: every cell x "
+        "23 histories of the world before the observed convention (each of 13 events alone: use, use in another "
+        "thread, the helpers, copy.copy / copy.deepcopy of the instances, awaited .asyncio() calls that return / fail / "
+        "of the attribute itself, gc, debug options on, scoped-value override, mock patch restored, copy.copy of the "
+        "binder; then used-then-copied, failed-.asyncio()-then-use, ... ) with body kind, signature, returns/raises, "
+        "relation of the second call, value kind and falsy receivers rotating, + 10 % of the random calls with a random "
+        "history of 1-4 events (thorough: 12 more random histories per cell); OVERRIDE family: every decorated kind x "
+        "(instance method | classmethod) x (via subclass | its instance) x generator / batch body x 5 histories x "
+        "relation of the second call, the subclass overriding the attribute and delegating through super(); "
+        "decoration options: one decorator-factory object shared by the own and the twin function, asyncio_fn= / "
+        "allow_sync_call= supplied, custom task keywords of asynq(pure=True); non-trivial = a body was "
         "entered by at least two conventions with a receiver or at least one argument; distinct by hash of the cell")
 TRUSTED = [
     "hand-written Lean model AsynqModel.Lib.Decorators (objects built by qcore.decorators.DecoratorBase.__init__/__get__, "
@@ -110,12 +142,17 @@ TRUSTED = [
     "Python harness checks/c09.py (class generation, token <-> object identity mapping; in the two-call conventions an "
     "exception raised while a future is being created is delivered where the future is awaited, so that both calls are made)",
     "qcore.decorators (compiled), qcore.caching.get_args_tuple, CPython descriptor protocol for function/staticmethod/classmethod",
+    "history events and the overriding subclass are constructions of the harness (World.event / aio_event / _make_override); "
+    "HState (asyncio-mode flag, shadowed instance __dict__ entries) is the model's whole idea of what a use can leave behind: "
+    "that the code has no further state that matters is established by the run only",
 ]
 ASSUMPTIONS = [
     "`.value()`, yielding a future from a task and a nested synchronous call deliver the future's own outcome (C01/C02): "
     "the model identifies the convention pairs sync/nestedSync, asynqValue/yieldAsynq, asyncCall/asyncCallSync by "
     "definition, so that they agree on the real code is established by the differential run only",
-    "asyncio mode is off (fn.asyncio is C15); single thread",
+    "the observed conventions run with asyncio mode off (what fn.asyncio delivers is C15); earlier .asyncio() calls in the same "
+    "context, returning or failing, are history events and must leave the mode off (C09_history_restores; seeded C09-8); "
+    "the observed convention runs on one thread (a history event may have used the attribute on another)",
     "restricted to the cells with Decorators.supported (hypothesis of every theorem, conjunct of spec): module-level "
     "callables are plain functions; the function-style wrappers (aretry, alru_cache, acached_per_instance) are exercised "
     "only on functions and instance methods (acached_per_instance on instance methods), as the property's quantifier says; "
@@ -133,6 +170,13 @@ ASSUMPTIONS = [
     "put there by calls of that function (Table.ownConsistent) and none that runs with other arguments sits under this "
     "call's key (Table.separates: any injective key function - the default is - or no own entry: C09_separates); both "
     "needed: C09_consistent_needed, C09_key_injective_needed",
+    "override cases (Sub overrides the attribute and delegates through super()) are judged by a DIRECT EXPECTATION written in "
+    "Lean (ovrLog: the overriding body's entry, same bound parameters, just before every entry of an own body; outcome "
+    "unchanged; the conventions with two calls in flight are not run) - no theorem models super(); the delegation step alone is "
+    "an instance of C09_any_receiver (super(Sub, self).target is __get__(self, Sub) of the inherited attribute)",
+    "history events other than copy / deepcopy / the three .asyncio() events are the identity on the model's state by "
+    "construction (it has no component they could touch); one decorator-factory object for several functions, asyncio_fn= / "
+    "allow_sync_call=, custom task keywords are not inputs of the model",
     "the truth value of receivers, the history of attribute look-ups, the class of the raised exception, a user task "
     "class and a user key function are not inputs of the model: its answer is the same for all of them (by "
     "construction - no theorem is claimed; the harness varies them on the real code)",
@@ -155,7 +199,21 @@ SIBCONVS = ("sibling", "siblingCall", "prior")
 RELS = ["args", "recv"]
 VKS = ["tok", "chash", "bigint", "tuple", "falsy"]
 SUBST = 100   # the value that replaces value token n in the second call is token n + SUBST
+THIRD = 200   # ... and in the calls of the history events (`use`, `aioSelf`) token n + THIRD
 INST2, SUBINST2 = 9, 10   # second instances of Base and of Sub
+ORIG = 50     # after a `copy` event the copies carry the instance tokens, the originals live on as token + ORIG
+# events in the world of the observed convention BEFORE it (Lean: Decorators.Ev; the model's state is the asyncio-mode
+# flag and the instance __dict__s: C09_history_restores / C09_history_irrelevant)
+EVS = ["use", "useThread", "helpers", "copy", "deepcopy", "aioOk", "aioFail", "aioSelf", "gc", "dbg", "scoped", "mocked",
+       "bcopy"]
+AIO_EVS = ("aioOk", "aioFail", "aioSelf")
+# histories of the fixed family: every single event, then the combinations that matter (an instance that was USED and
+# then copied; a failed .asyncio() call and then a copy; everything at once)
+HISTS = [[e] for e in EVS] + [["use", "copy"], ["use", "deepcopy"], ["useThread", "copy"], ["helpers", "use", "gc"],
+                               ["aioFail", "use"], ["aioOk", "aioFail", "aioSelf"], ["use", "aioSelf", "copy"],
+                               ["dbg", "scoped", "use"], ["mocked", "use", "copy", "aioFail"], ["use", "copy", "bcopy"]]
+# conventions with two calls in flight at once: not run on override cases (Lean: Cv.inFlight)
+INFLIGHT = ("twin", "sibling", "siblingCall")
 # dimensions the model does not look at (it is the same for all of them): class of the exception a body raises,
 # a user task class (asynq(cls=...)), a user supplied key function (deduplicate(keygetter=...), alru_cache(key_fn=...))
 EKS = ["exc", "base", "falsy"]
@@ -242,9 +300,86 @@ def identical_second(case):
     return not eff_recv(case) and not case["pos"] and not case["kw"]
 
 
+def ovr_ok(case):
+    """where the override family is defined (Lean: XCase.ovrOk): fetched through the subclass or its instance, a
+    function with a receiver (a classmethod only when the second call does not go through the base class), a
+    generator body"""
+    return (case["acc"] in ("subInst", "subCls") and case["body"] != "plain" and
+            (case["ft"] == "plain" or (case["ft"] == "classm" and case.get("rel", "args") == "args")))
+
+
+def valid(case):
+    return not case.get("ovr") or ovr_ok(case)
+
+
+def gen_hist(rng):
+    n = rng.choice([1, 1, 2, 2, 3, 4])
+    return [rng.choice(EVS) for _ in range(n)]
+
+
+def history_family(tier, rng):
+    """every cell x every history of HISTS (each single event, then the combinations: used-then-copied, failed
+    .asyncio() then use, ...) on a call that passes positional, defaulted and keyword-only parameters; body kind,
+    signature, returns/raises and the relation of the second call rotate; thorough: + random histories"""
+    cases = []
+    n = 0
+    for kind, ft, acc in cells():
+        hists = list(HISTS)
+        if tier != "quick":
+            hists += [gen_hist(rng) for _ in range(12)]
+        for hist in hists:
+            n += 1
+            base = dict(kind=kind, ft=ft, acc=acc, body=BODIES[n % 3], sig=SIGS[(n // 3) % 3], raises=1 if n % 5 == 0 else 0,
+                        hist=list(hist), rel=RELS[n % 2])
+            if n % 7 == 0:
+                base["vk"] = VKS[(n // 7) % len(VKS)]
+            if n % 11 == 0:
+                base["falsy"] = 1
+            cases.append(dict(base, pos=[30, 31], kw=[[3, 32]]))
+            if tier != "quick":
+                pos, kw = gen_args(rng)
+                cases.append(dict(base, pos=pos, kw=kw))
+    return cases
+
+
+OVR_HISTS = [[], ["use"], ["use", "copy"], ["aioFail", "use"], ["helpers", "useThread", "gc"]]
+
+
+def override_family(tier, rng):
+    """the subclass overrides the decorated attribute and delegates through super(): every decorated kind x (instance
+    method | classmethod) x (via the subclass | its instance) x generator / batch body x history (none, a second use,
+    used then copied, ...) x relation of the second call x returns/raises"""
+    cases = []
+    n = 0
+    for kind, ft, acc in cells():
+        if kind == "raw" or ft == "static" or acc not in ("subInst", "subCls"):
+            continue
+        for body in BODIES[1:]:
+            for hist in OVR_HISTS:
+                for rel in RELS:
+                    if rel == "recv" and ft != "plain":
+                        continue
+                    n += 1
+                    base = dict(kind=kind, ft=ft, acc=acc, body=body, sig=SIGS[n % 3], ovr=1, hist=list(hist), rel=rel)
+                    cases.append(dict(base, raises=1 if n % 4 == 0 else 0, pos=[30, 31], kw=[[3, 32]]))
+                    for _ in range(0 if tier == "quick" else 3):
+                        pos, kw = gen_args(rng)
+                        cases.append(dict(base, raises=rng.choice([0, 0, 1]), pos=pos, kw=kw))
+    return cases
+
+
+KWOPT_KINDS = ("asynq", "proxy", "pair", "pairProxy", "mad", "dedup", "aretry", "alru", "acpi")
+
+
 def gen_opts(rng, p=0.3):
     """random values of the second-call dimensions and of the dimensions the model does not look at"""
     o = {}
+    if rng.random() < p / 3:
+        o["hist"] = gen_hist(rng)
+    if rng.random() < p / 4:
+        o["shared"] = 1
+    if rng.random() < p / 4:
+        o["kwopt"] = 1
     if rng.random() < p:
         o["rel"] = rng.choice(RELS)
         o["vk"] = rng.choice(VKS)
@@ -297,6 +432,12 @@ def options_family():
                 if kind in ("dedup", "alru"):
                     for vk in ("chash", "bigint"):
                         cases.append(dict(base, raises=0, kg=1, vk=vk))
+                # ONE decorator-factory object for the own and the twin function; the seldom used keywords
+                if kind not in ("raw", "pair", "pairProxy"):
+                    cases.append(dict(base, raises=0, shared=1))
+                    cases.append(dict(base, raises=0, shared=1, pos=[], kw=[]))   # own and twin calls spelled alike
+                if kind in KWOPT_KINDS:
+                    cases.append(dict(base, raises=i % 2, kwopt=1, hist=[["use"], ["aioOk"], []][i]))
     return cases
 
 
@@ -306,6 +447,8 @@ def plan(tier, seed):
     nrand = 2 if tier == "quick" else 30
     cases += options_family()
     cases += second_call_family(tier, random.Random(seed * 1000003 + 10))
+    cases += history_family(tier, random.Random(seed * 1000003 + 11))
+    cases += override_family(tier, random.Random(seed * 1000003 + 12))
     for kind, ft, acc in cells():
         for falsy, pre in variants(tier, acc):
             for body in BODIES:
@@ -333,6 +476,18 @@ def plan(tier, seed):
 
 
 def shrink(case):
+    for c in _shrink(case):
+        if valid(c):
+            yield c
+
+
+def _shrink(case):
+    hist = case.get("hist") or []
+    for i in range(len(hist)):
+        yield dict(case, hist=hist[:i] + hist[i + 1:])
+    for k in ("ovr", "shared", "kwopt"):
+        if case.get(k):
+            yield {x: y for x, y in case.items() if x != k}
     for i in range(len(case["pos"])):
         yield dict(case, pos=case["pos"][:i] + case["pos"][i + 1:])
     for i in range(len(case["kw"])):
@@ -358,6 +513,16 @@ def shrink(case):
 
 
 def neighbours(case, rng):
+    for c in _neighbours(case, rng):
+        if valid(c):
+            yield c
+
+
+def _neighbours(case, rng):
+    for hist in HISTS:
+        yield dict(case, hist=list(hist))
+    for hist in OVR_HISTS:
+        yield dict(case, ovr=1, hist=list(hist))
     for body in BODIES:
         for sig in SIGS:
             for raises in (0, 1):
@@ -390,6 +555,14 @@ def signature(case, v):
     for k in ("ek", "tcls", "kg"):
         if case.get(k):
             sig += "/%s=%s" % (k, case[k])
+    if case.get("hist"):
+        sig += "/history-" + "+".join(sorted(set(case["hist"])))
+    if case.get("ovr"):
+        sig += "/override-via-super"
+    if case.get("shared"):
+        sig += "/shared-decorator-factory"
+    if case.get("kwopt"):
+        sig += "/asyncio_fn+allow_sync_call"
     return sig
 
 
@@ -461,7 +634,12 @@ HASH_MODULUS = __import__("sys").hash_info.modulus
 
 def make_value(vk, n):
     """the object standing for value token n (30..45 the caller's, + SUBST the replacements of the second call)"""
-    k, second = (n - SUBST, True) if n >= SUBST else (n, False)
+    third = n >= THIRD
+    if third:
+        n2 = n - THIRD
+        k, second = n2, False
+    else:
+        k, second = (n - SUBST, True) if n >= SUBST else (n, False)
     k -= 29
     if vk == "tok":
         return Tok(n)
@@ -471,10 +649,10 @@ def make_value(vk, n):
         return FalsyVal(n)
     if vk == "bigint":
         # hash(k) == hash(k + modulus) for built-in ints: different values, equal hashes
-        return k + HASH_MODULUS if second else k
+        return k + 2 * HASH_MODULUS if third else k + HASH_MODULUS if second else k
     if vk == "tuple":
         # hash(-1) == hash(-2), hence hash((-1, k)) == hash((-2, k))
-        return (-2, k) if second else (-1, k)
+        return (-3, k) if third else (-2, k) if second else (-1, k)
     raise ValueError(vk)
 
 
@@ -525,6 +703,27 @@ def _make_function(env, name, recv, sig, body, raises, bid, proxy):
     return env[name]
 
 
+def _make_override(env, name, recv, sig, kind, bid, sync):
+    """source-generated OVERRIDING function of the subclass (`ovr` cases): same parameter list as the inherited one, logs
+    its bound parameters under identity `bid` (5 = async body, 6 = sync_fn) and delegates to the inherited attribute
+    through super() with the same arguments - the async body by `yield super().target.asynq(...)` (the plain call for
+    the kinds whose plain call hands back a future; a proxied body returns the future), sync_fn by the plain call"""
+    params, seen = _params(recv, sig)
+    call = {"fixed": "a, b, c=c", "var": "*args, **kwargs", "mixed": "a, b, *args, c=c, **kwargs"}[sig]
+    inherited = "super(SUBCLS[0], %s).%s" % (recv, name)
+    lines = ["def %s(%s):" % (name, params), "    entry = [%d, %s, 1]" % (bid, seen), "    LOG.append(entry)"]
+    if sync:
+        lines.append("    return %s(%s)" % (inherited, call))
+    else:
+        fut = "%s(%s)" % (inherited, call) if kind in ("pure", "proxyPure", "raw") else "%s.asynq(%s)" % (inherited, call)
+        if kind in ("proxy", "proxyPure", "pairProxy"):
+            lines.append("    return " + fut)
+        else:
+            lines += ["    got = yield " + fut, "    return got"]
+    exec(_compiled("\n".join(lines)), env)
+    return env[name]
+
+
 _CODE = {}
 
 
@@ -553,6 +752,7 @@ class World(object):
         for n in set(case["pos"]) | set(v for _, v in case["kw"]):
             vals[n] = make_value(vk, n)
             vals[n + SUBST] = make_value(vk, n + SUBST)
+            vals[n + THIRD] = make_value(vk, n + THIRD)
         for n, v in vals.items():
             self.objtok[id(v)] = n
         self.vals = vals
@@ -576,6 +776,11 @@ class World(object):
                 "@asynq()", "def HELPER_batch_1(bid):", "    yield DebugBatchItem('c09', YV)", "    raise ERR[bid]",
             ])), env)
         self.env = env
+        self.lib = lib
+        self.cleanup = []      # undo actions of the events that last (`dbg`, `scoped`), run by `close`
+        self.factories = {}    # decoration option `shared`: ONE factory object per decorator kind
+        self.aiofn_calls = []  # decoration option `kwopt`: calls of the supplied asyncio_fn (must stay empty)
+        self.bcopy = False     # event `bcopy`: use copy.copy of what attribute access returns
         kind, ft, acc = case["kind"], case["ft"], case["acc"]
         self.own = self._hierarchy(lib, 0)
         self.twin = self._hierarchy(lib, 1) if with_twin else {}
@@ -595,27 +800,55 @@ class World(object):
         opts = {}
         if self.case.get("tcls"):
             # a user task class (public keyword `cls` of asynq()): the calling conventions do not depend on it
-            opts["cls"] = type("UserTask", (asynq.AsyncTask,), {})
+            opts["cls"] = self.factories.setdefault("tcls", type("UserTask", (asynq.AsyncTask,), {}))
+            if kind == "pure":
+                # asynq(pure=True, cls=..., **kwargs): custom keywords are handed to the task class
+                class TaggedTask(asynq.AsyncTask):
+                    def __init__(self, generator, fn, args, kwargs, tag=None):
+                        asynq.AsyncTask.__init__(self, generator, fn, args, kwargs)
+                        self.c09_tag = tag
+                opts.update(cls=TaggedTask, tag="c09")
+        popts = {}
+        if self.case.get("kwopt"):
+            # seldom used public keywords of asynq() / async_proxy(): an asyncio_fn (used by .asyncio() only: outside
+            # asyncio mode it must never run) and allow_sync_call (only read in asyncio mode)
+            calls = self.aiofn_calls
+
+            async def asyncio_fn(*args, **kwargs):
+                calls.append((args, kwargs))
+                raise NeverRaised("asyncio_fn called outside asyncio mode")
+            popts = dict(asyncio_fn=asyncio_fn, allow_sync_call=True)
         keyfn = None
         if self.case.get("kg"):
             # a user supplied key function (public keyword of deduplicate / alru_cache) that separates calls as the
             # default one does
             keyfn = lambda args, kwargs: (args, tuple(sorted(kwargs.items())))  # noqa: E731
+
+        def factory(name, make):
+            # decoration option `shared`: the SAME decorator-factory object (what `asynq()` / `deduplicate()` / ...
+            # return) is applied to every function of the world - own, overriding and twin; a sync_fn belongs to one
+            # function, so the pair factories are never shared
+            if not self.case.get("shared"):
+                return make()
+            if name not in self.factories:
+                self.factories[name] = make()
+            return self.factories[name]
+
         if kind == "raw":
             return wrap(f)
         if kind == "asynq":
-            return asynq.asynq(**opts)(wrap(f))
+            return factory("asynq", lambda: asynq.asynq(**dict(opts, **popts)))(wrap(f))
         if kind == "pure":
-            return asynq.asynq(pure=True, **opts)(wrap(f))
+            return factory("pure", lambda: asynq.asynq(pure=True, **opts))(wrap(f))
         if kind == "proxy":
-            return asynq.async_proxy()(wrap(f))
+            return factory("proxy", lambda: asynq.async_proxy(**popts))(wrap(f))
         if kind == "proxyPure":
-            return asynq.async_proxy(pure=True)(wrap(f))
+            return factory("proxyPure", lambda: asynq.async_proxy(pure=True))(wrap(f))
         if kind == "pair":
-            return asynq.asynq(sync_fn=wrap(sf), **opts)(wrap(f))
+            return asynq.asynq(sync_fn=wrap(sf), **dict(opts, **popts))(wrap(f))
         if kind == "pairProxy":
-            return asynq.async_proxy(sync_fn=sf)(wrap(f))
-        inner = asynq.asynq(**opts)(wrap(f))
+            return asynq.async_proxy(sync_fn=sf, **popts)(wrap(f))
+        inner = factory("inner", lambda: asynq.asynq(**dict(opts, **popts)))(wrap(f))
         if kind == "mad":
             @asynq.asynq(pure=True)
             def wrapper_fn(*args, **kwargs):
@@ -623,13 +856,13 @@ class World(object):
                 return Wrapped(value)  # a wrapper that does something: every convention must go through it
             return decorators.make_async_decorator(inner, wrapper_fn, "c09_wrapper")
         if kind == "dedup":
-            return tools.deduplicate(keygetter=keyfn)(inner)
+            return factory("dedup", lambda: tools.deduplicate(keygetter=keyfn))(inner)
         if kind == "aretry":
-            return tools.aretry(NeverRaised, max_tries=2, sleep=0)(inner)
+            return factory("aretry", lambda: tools.aretry(NeverRaised, max_tries=2, sleep=0))(inner)
         if kind == "alru":
-            return tools.alru_cache(key_fn=keyfn)(inner)
+            return factory("alru", lambda: tools.alru_cache(key_fn=keyfn))(inner)
         if kind == "acpi":
-            return tools.acached_per_instance()(inner)
+            return factory("acpi", lambda: tools.acached_per_instance())(inner)
         raise ValueError(kind)
 
     def _hierarchy(self, lib, twin):
@@ -661,7 +894,17 @@ class World(object):
                 d["__ne__"] = lambda x, y: x is not y
         meta = type("Meta", (type,), mdict) if mdict else type
         Base = meta("Base", (object,), cdict)
-        Sub = meta("Sub", (Base,), {})
+        sdict = {}
+        if case.get("ovr") and not twin:
+            # the subclass OVERRIDES the attribute (decorated the same way) and delegates through super()
+            holder = []
+            self.env["SUBCLS"] = holder
+            of = _make_override(self.env, "target", recv, case["sig"], kind, 5, False)
+            osf = _make_override(self.env, "target", recv, case["sig"], kind, 6, True)
+            sdict["target"] = self._decorate(lib, of, osf, ft, "target")
+        Sub = meta("Sub", (Base,), sdict)
+        if sdict:
+            holder.append(Sub)
         h = {"Base": Base, "Sub": Sub, "inst": Base(), "subinst": Sub()}
         if not twin:
             h["inst2"], h["subinst2"] = Base(), Sub()
@@ -676,9 +919,9 @@ class World(object):
         h = self.twin if twin else self.own
         acc = self.case["acc"]
         if acc == "direct":
-            return h["fn"]
+            return self._fetched(h["fn"])
         holder = {"inst": h["inst"], "cls": h["Base"], "subInst": h["subinst"], "subCls": h["Sub"]}[acc]
-        return holder.target
+        return self._fetched(holder.target)
 
     def call_args(self, twin=False):
         """the caller's positional and keyword arguments (explicit self for an unbound instance method)"""
@@ -700,7 +943,7 @@ class World(object):
             holder = {"inst": h["inst2"], "cls": h["Base"], "subInst": h["subinst2"], "subCls": h["Sub"]}[acc]
         else:
             holder = {"inst": h["subinst"], "cls": h["Sub"], "subInst": h["inst"], "subCls": h["Base"]}[acc]
-        return holder.target
+        return self._fetched(holder.target)
 
     def sib_args(self):
         """the caller's arguments of the second call"""
@@ -716,6 +959,166 @@ class World(object):
             pos = [h["inst"] if case["acc"] == "cls" else h["subinst"]] + pos
         kw = {NAMES[n]: self.vals[v + SUBST] for n, v in case["kw"]}
         return pos, kw
+
+    # ---- history of the world -------------------------------------------------------------------------
+
+    def hist_args(self):
+        """the caller's arguments of the calls made by history events: THIRD objects, the observed receiver"""
+        h, case = self.own, self.case
+        pos = [self.vals[n + THIRD] for n in case["pos"]]
+        if case["ft"] == "plain" and case["acc"] in ("cls", "subCls"):
+            pos = [h["inst"] if case["acc"] == "cls" else h["subinst"]] + pos
+        kw = {NAMES[n]: self.vals[v + THIRD] for n, v in case["kw"]}
+        return pos, kw
+
+    def _quiet(self, thunk):
+        """an earlier call: its outcome is its own business"""
+        FutureBase = self.lib["FutureBase"]
+        try:
+            r = thunk()
+            if isinstance(r, FutureBase):
+                r = r.value()
+            if inspect.isgenerator(r) or inspect.iscoroutine(r):
+                r.close()
+        except BaseException as e:  # noqa
+            if _fatal(e):
+                raise
+
+    def _use(self):
+        asynq = self.lib["asynq"]
+        b = self.access()
+        self.keep.append(b)
+        if not self.case["pos"] and not self.case["kw"]:
+            return   # a call without arguments would BE the observed call (cache hits are C13): look-up only
+        pos, kw = self.hist_args()
+        self._quiet(lambda: b(*pos, **kw))
+        self._quiet(lambda: _asynq_attr(b)(*pos, **kw))
+        self._quiet(lambda: asynq.async_call(b, *pos, **kw))
+
+    def event(self, ev):
+        """one synchronous history event"""
+        import copy
+        import gc
+        import threading
+        lib = self.lib
+        asynq, decorators = lib["asynq"], lib["decorators"]
+        if ev == "use":
+            self._use()
+        elif ev == "useThread":
+            errs = []
+
+            def run():
+                try:
+                    self._use()
+                except BaseException as e:  # noqa
+                    errs.append(e)
+            t = threading.Thread(target=run)
+            t.start()
+            t.join()
+            if errs:
+                raise errs[0]
+        elif ev == "helpers":
+            h = self.own
+            holders = [h["fn"]] if "fn" in h else [h["inst"].target, h["Base"].target, h["subinst"].target, h["Sub"].target]
+            for b in holders:
+                for f in (decorators.is_async_fn, decorators.is_pure_async_fn, decorators.has_async_fn,
+                          decorators.get_async_fn, decorators.get_async_or_sync_fn,
+                          lambda x: decorators.get_async_fn(x, wrap_if_none=True)):
+                    try:
+                        self.keep.append(f(b))
+                    except Exception:  # noqa - judged by the classification of the case itself
+                        pass
+        elif ev in ("copy", "deepcopy"):
+            h = self.own
+            fn = copy.copy if ev == "copy" else copy.deepcopy
+            for k in ("inst", "subinst", "inst2", "subinst2"):
+                if k in h:
+                    old = h[k]
+                    new = fn(old)
+                    t = self.objtok.pop(id(old))
+                    self.objtok[id(old)] = t + ORIG
+                    self.objtok[id(new)] = t
+                    self.keep.append(old)
+                    h[k] = new
+        elif ev == "gc":
+            del self.keep[:]
+            gc.collect(1)   # the young generations: finalisers and weakref callbacks of what was just dropped
+        elif ev == "dbg":
+            options = asynq.debug.options
+            names = ["DUMP_NEW_TASKS", "DUMP_SCHEDULE_TASK", "DUMP_CONTINUE_TASK", "DUMP_SCHEDULE_BATCH", "DUMP_FLUSH_BATCH",
+                     "DUMP_DEPENDENCIES", "DUMP_COMPUTED", "DUMP_YIELD_RESULTS", "DUMP_QUEUED_RESULTS", "DUMP_CONTEXTS",
+                     "DUMP_SYNC", "DUMP_STACK", "DUMP_SYNC_CALLS", "COLLECT_PERF_STATS", "KEEP_DEPENDENCIES"]
+            saved = [(n, getattr(options, n)) for n in names]
+
+            def undo():
+                for n, v in saved:
+                    setattr(options, n, v)
+                asynq.profiler.reset()
+            self.cleanup.append(undo)
+            for n in names:
+                setattr(options, n, True)
+        elif ev == "scoped":
+            ctx = asynq.AsyncScopedValue(0).override(1)
+            ctx.__enter__()
+            self.cleanup.append(lambda: ctx.__exit__(None, None, None))
+        elif ev == "mocked":
+            if "Base" in self.own:
+                with asynq.mock.patch.object(self.own["Base"], "target") as m:
+                    self.keep.append(m)
+                    self.keep.append(self.own["Base"].target)
+        elif ev == "bcopy":
+            self.bcopy = True
+        else:
+            raise ValueError(ev)
+
+    def _fetched(self, b):
+        """event `bcopy`: a shallow copy of the binder / bound method that attribute access returned"""
+        if not self.bcopy:
+            return b
+        import copy
+        try:
+            c = copy.copy(b)
+        except Exception:  # noqa - a decorator object (module function, staticmethod) refuses to be copied
+            return b
+        self.keep.append(b)
+        return c
+
+    async def aio_event(self, ev):
+        """`.asyncio()` calls awaited DIRECTLY here: same asyncio task, same context as the observed convention"""
+        env = self.env
+        if "AIO_OK" not in env:
+            # helpers of the .asyncio() events: returning / failing, generator and plain bodies
+            env["HELPERERR"] = UserErr("aio helper")
+            exec(_compiled("\n".join([
+                "@asynq()", "def AIO_LEAF(x):", "    return x",
+                "@asynq()", "def AIO_OK(x):", "    y = yield AIO_LEAF.asynq(x)", "    return y",
+                "@asynq()", "def AIO_FAIL(x):", "    y = yield AIO_LEAF.asynq(x)", "    raise HELPERERR",
+                "@asynq()", "def AIO_FAIL_PLAIN(x):", "    raise HELPERERR",
+            ])), env)
+
+        async def quiet(thunk):
+            try:
+                await thunk()
+            except BaseException as e:  # noqa
+                if _fatal(e):
+                    raise
+        if ev == "aioOk":
+            await quiet(lambda: env["AIO_OK"].asyncio(1))
+            await quiet(lambda: env["AIO_LEAF"].asyncio(1))
+        elif ev == "aioFail":
+            await quiet(lambda: env["AIO_FAIL"].asyncio(1))
+            await quiet(lambda: env["AIO_FAIL_PLAIN"].asyncio(1))
+        elif ev == "aioSelf":
+            b = self.access()
+            if self.case["pos"] or self.case["kw"]:
+                pos, kw = self.hist_args()
+                await quiet(lambda: b.asyncio(*pos, **kw))
+        else:
+            raise ValueError(ev)
+
+    def close(self):
+        while self.cleanup:
+            self.cleanup.pop()()
 
     def tok(self, o):
         if o is None:
@@ -774,13 +1177,71 @@ def _fatal(e):
     return isinstance(e, (KeyboardInterrupt, SystemExit, MemoryError)) or type(e).__name__ == "CaseTimeout"
 
 
-def _convention(case, lib, conv):
-    """one calling convention on freshly generated classes -> (log entries, outcome, future flag, bodies entered)"""
-    asynq, decorators, FutureBase = lib["asynq"], lib["decorators"], lib["FutureBase"]
-    flag = [0]
-    w = None
+def _in_world(case, lib, with_twin, box, body):
+    """a fresh world, the history events of the case, then `body(world)`; the world is left in box["w"]"""
+    hist = case.get("hist") or []
+
+    def start():
+        box["w"] = World(case, lib, with_twin=with_twin)
+        return box["w"]
+
     try:
-        w = World(case, lib, with_twin=(conv == "twin"))
+        if any(e in AIO_EVS for e in hist):
+            import asyncio
+
+            async def main():
+                # plain coroutine code, NOT in asyncio mode: the .asyncio() calls are awaited directly and the
+                # observed convention runs afterwards in the same asyncio task (same contextvars context)
+                w = start()
+                for ev in hist:
+                    if ev in AIO_EVS:
+                        await w.aio_event(ev)
+                    else:
+                        w.event(ev)
+                del w.log[:]
+                del w.aiofn_calls[:]   # an asyncio_fn may run during the .asyncio() calls of the history, never later
+                return body(w)
+            return asyncio.run(main())
+        w = start()
+        for ev in hist:
+            w.event(ev)
+        if hist:
+            del w.log[:]
+            del w.aiofn_calls[:]
+        return body(w)
+    finally:
+        if box["w"] is not None:
+            box["w"].close()
+
+
+def _convention(case, lib, conv):
+    """one calling convention on freshly generated classes, after the history events of the case
+    -> (log entries, outcome, future flag, bodies entered)"""
+    flag = [0]
+    box = {"w": None}
+    try:
+        if case.get("ovr") and conv in INFLIGHT:
+            raise Skipped()   # two calls in flight at once under an override: the interleaving is scheduling
+        out = _in_world(case, lib, conv == "twin", box, lambda w: _observe(case, lib, conv, w, flag))
+    except BaseException as e:  # noqa - whatever the library raises is the outcome of the convention
+        if _fatal(e):
+            raise
+        out = _classify_exc(e, box["w"].err if box["w"] is not None else {})
+    w = box["w"]
+    entries = w.entries() if w is not None else ""
+    entered = 0
+    if w is not None and any(any(o is not None for o in seen) for _, seen, _ in w.log):
+        entered = 1
+    if w is not None and w.aiofn_calls:
+        out = "(raised other asyncio_fn-called)"   # a supplied asyncio_fn ran outside asyncio mode
+    # whether a binding error surfaces when the future is created or when it first runs is not observed
+    return entries, out, (0 if out == "(raised typeError)" else flag[0]), entered
+
+
+def _observe(case, lib, conv, w, flag):
+    """the observed convention itself; returns the outcome, raises what the library raises"""
+    asynq, decorators, FutureBase = lib["asynq"], lib["decorators"], lib["FutureBase"]
+    if True:
         b = w.access()
         pos, kw = w.call_args()
 
@@ -880,6 +1341,8 @@ def _convention(case, lib, conv):
         wrapped = 0
         if isinstance(r, Wrapped):
             wrapped, r = 1, r.value
+            if case.get("ovr") and isinstance(r, Wrapped):
+                r = r.value   # the overriding attribute's wrapper_fn wrapped what the inherited one's had wrapped
         out = "(gotFuture)" if isinstance(r, FutureBase) else "(ok %d %d)" % (UNKNOWN, wrapped)
         if inspect.isgenerator(r):
             out = "(gotGenerator)"   # an unstarted generator object came back (an undecorated generator function)
@@ -887,23 +1350,17 @@ def _convention(case, lib, conv):
         for i, x in w.ret.items():
             if r is x:
                 out = "(ok %d %d)" % (i, wrapped)
-    except BaseException as e:  # noqa - whatever the library raises is the outcome of the convention
-        if _fatal(e):
-            raise
-        out = _classify_exc(e, w.err if w is not None else {})
-    entries = w.entries() if w is not None else ""
-    entered = 0
-    if w is not None and any(any(o is not None for o in seen) for _, seen, _ in w.log):
-        entered = 1
-    # whether a binding error surfaces when the future is created or when it first runs is not observed
-    return entries, out, (0 if out == "(raised typeError)" else flag[0]), entered
+        return out
 
 
 def _classification(case, lib):
     """the five helpers + the receiver bound by attribute access, on one more fresh set of classes"""
+    return _in_world(case, lib, False, {"w": None}, lambda w: _classify_in(w, lib))
+
+
+def _classify_in(w, lib):
     import types
     decorators = lib["decorators"]
-    w = World(case, lib)
     b = w.access()
 
     def safe(f):
@@ -951,10 +1408,11 @@ def run_case(case):
 
     lib = {"asynq": asynq, "decorators": decorators, "tools": tools, "DebugBatchItem": DebugBatchItem,
            "FutureBase": FutureBase}
-    lines = ["(case decorators %d %s %s %s %s %d %s (%s) (%s) %d (%s) %s %s)" % (
+    lines = ["(case decorators %d %s %s %s %s %d %s (%s) (%s) %d (%s) %s %s (%s) %d)" % (
         case["id"], case["kind"], case["ft"], case["acc"], case["body"], case["raises"], case["sig"],
         " ".join(str(x) for x in case["pos"]), " ".join("(%d %d)" % (n, v) for n, v in case["kw"]),
-        1 if case.get("falsy") else 0, " ".join(case.get("pre", [])), case.get("rel", "args"), case.get("vk", "tok"))]
+        1 if case.get("falsy") else 0, " ".join(case.get("pre", [])), case.get("rel", "args"), case.get("vk", "tok"),
+        " ".join(case.get("hist") or []), 1 if case.get("ovr") else 0)]
     entered = 0
     for conv in CONVS:
         entries, out, flag, ent = _convention(case, lib, conv)
@@ -972,7 +1430,9 @@ def run_case(case):
              "prior-accesses=%d" % len(case.get("pre", [])),
              "second-call=%s" % ("skipped" if identical_second(case) else "other-receiver" if eff_recv(case) else "other-values"),
              "values=" + case.get("vk", "tok"), "error-class=" + case.get("ek", "exc"),
-             "user-task-cls=%d" % (1 if case.get("tcls") else 0), "user-key-fn=%d" % (1 if case.get("kg") else 0)]
+             "user-task-cls=%d" % (1 if case.get("tcls") else 0), "user-key-fn=%d" % (1 if case.get("kg") else 0),
+             "history=%s" % ("+".join(case.get("hist") or []) or "none"), "override=%d" % (1 if case.get("ovr") else 0),
+             "shared-factory=%d" % (1 if case.get("shared") else 0), "asyncio_fn+allow_sync_call=%d" % (1 if case.get("kwopt") else 0)]
     nontrivial = None
     if entered >= 2:
         nontrivial = hashlib.sha1(json.dumps({k: v for k, v in case.items() if k != "id"}, sort_keys=True).encode()).hexdigest()[:16]
